@@ -46,15 +46,22 @@ def decBody (s : Bytes) : Option (Nat × Nat × Bytes) :=
     if n1 + n2 == 0 then none else some (m2, n2, r3)
   | _ => if n1 == 0 then none else some (m1, 0, r1)
 
-/-- REC §4.4 -/
-def recNumber (s : Bytes) : Lexed :=
-  let s1 := dropWhile isXmlWs s
-  let (neg, s2) := match s1 with
-    | 0x2d :: r => (true, r)
-    | _ => (false, s1)
-  match decBody s2 with
+/-- REC: optional `-` -/
+def signRec (s : Bytes) : Bool × Bytes :=
+  match s with
+  | 0x2d :: r => (true, r)
+  | _ => (false, s)
+
+/-- REC: a `Number`, then optional white space, then the end -/
+def bodyRec (neg : Bool) (t : Bytes) : Lexed :=
+  match decBody t with
   | none => .invalid
   | some (m, frac, rest) => if (dropWhile isXmlWs rest).isEmpty then .dec neg m (-(frac : Int)) else .invalid
+
+/-- REC §4.4 -/
+def recNumber (s : Bytes) : Lexed :=
+  let p := signRec (dropWhile isXmlWs s)
+  bodyRec p.1 p.2
 
 def lower (b : UInt8) : UInt8 := if 0x41 ≤ b && b ≤ 0x5a then b + 0x20 else b
 
@@ -90,14 +97,16 @@ def takeExp (marker : UInt8) (s : Bytes) : Int × Bytes :=
 
 def isAlnumU (b : UInt8) : Bool := isDigit b || (0x61 ≤ lower b && lower b ≤ 0x7a) || b == 0x5f
 
-/-- glibc `strtold(str, &end)` followed by libyang's check `*end == 0 && end != str`; range errors are out of reach of
-the strings the check generates and are not modelled -/
-def strtoldNumber (s : Bytes) : Lexed :=
-  let s1 := dropWhile isCSpace s
-  let (neg, s2) := match s1 with
-    | 0x2d :: r => (true, r)
-    | 0x2b :: r => (false, r)
-    | _ => (false, s1)
+/-- `strtold`: optional `-` or `+` -/
+def signC (s : Bytes) : Bool × Bytes :=
+  match s with
+  | 0x2d :: r => (true, r)
+  | 0x2b :: r => (false, r)
+  | _ => (false, s)
+
+/-- `strtold` after the sign: `inf`/`infinity`, `nan`/`nan(...)`, hexadecimal, decimal with optional exponent; then libyang's
+check that the whole string was consumed -/
+def bodyC (neg : Bool) (s2 : Bytes) : Lexed :=
   if startsWithCI s2 [0x69, 0x6e, 0x66, 0x69, 0x6e, 0x69, 0x74, 0x79] then
     if (s2.drop 8).isEmpty then .inf neg else .invalid
   else if startsWithCI s2 [0x69, 0x6e, 0x66] then
@@ -114,15 +123,29 @@ def strtoldNumber (s : Bytes) : Lexed :=
        | b :: _ => (hexVal b).isSome
        | [] => false) then
     -- hexadecimal: this generator never puts a radix point into a hex string; digits then optional p-exponent
-    let (m, _, r1) := takeHex (s2.drop 2) 0 0
-    let (e, r2) := takeExp 0x70 r1
-    if r2.isEmpty then .hex neg m e else .invalid
+    let r := takeHex (s2.drop 2) 0 0
+    let e := takeExp 0x70 r.2.2
+    if e.2.isEmpty then .hex neg r.1 e.1 else .invalid
   else
     match decBody s2 with
     | none => .invalid
     | some (m, frac, rest) =>
-      let (e, r2) := takeExp 0x65 rest
-      if r2.isEmpty then .dec neg m (e - (frac : Int)) else .invalid
+      let e := takeExp 0x65 rest
+      if e.2.isEmpty then .dec neg m (e.1 - (frac : Int)) else .invalid
+
+/-- glibc `strtold(str, &end)` followed by libyang's check `*end == 0 && end != str`; range errors are out of reach of
+the strings the check generates and are not modelled -/
+def strtoldNumber (s : Bytes) : Lexed :=
+  let p := signC (dropWhile isCSpace s)
+  bodyC p.1 p.2
+
+/-- the lexical forms both conversions are meant to agree on: optional `-`, then digits and `.` only -/
+def isPlainChar (b : UInt8) : Bool := isDigit b || b == 0x2e
+
+def isPlain (s : Bytes) : Bool :=
+  match s with
+  | 0x2d :: r => r.all isPlainChar
+  | _ => s.all isPlainChar
 
 /-! ## number → string on exact decimals -/
 
@@ -141,9 +164,11 @@ def natDigitsAux : Nat → Nat → Bytes → Bytes
 def natDigits (n : Nat) : Bytes := natDigitsAux (n + 1) n []
 
 /-- strip trailing zeros of the fraction: smallest scale representing the same value -/
-def Dec.normalize : Dec → Dec
-  | ⟨neg, m, 0⟩ => ⟨neg, m, 0⟩
-  | ⟨neg, m, s + 1⟩ => if m % 10 == 0 then Dec.normalize ⟨neg, m / 10, s⟩ else ⟨neg, m, s + 1⟩
+def normAux : Nat → Nat → Nat × Nat
+  | m, 0 => (m, 0)
+  | m, s + 1 => if m % 10 == 0 then normAux (m / 10) s else (m, s + 1)
+
+def Dec.normalize (d : Dec) : Dec := ⟨d.neg, (normAux d.mant d.scale).1, (normAux d.mant d.scale).2⟩
 
 def padLeft (n : Nat) (b : Bytes) : Bytes := List.replicate (n - b.length) 0x30 ++ b
 
